@@ -31,13 +31,16 @@ structure Inv (s : SyncState) : Prop where
   closing : 0 < s.closeWaiting ∨ 0 < s.closeReturned → s.closed = true ∧ s.ctxDone = true
   closedCtx : s.closed = true → s.ctxDone = true
   cancelWaitCtx : s.pc = .cancelWait → s.ctxDone = true
+  /-- at most one cancel signal through the (once-only) stop condition and one from `run()` itself -/
+  stopBound : s.cancelSends ≤ (if s.stopAvail then 1 else 0) +
+    (if s.pc = .cancelWait ∨ s.pc = .finishing ∨ s.pc = .done then 1 else 0)
 
 theorem inv_init : Inv syncInit := by
   constructor <;> simp [syncInit, earlyPc]
 
 /-- unfold one action, split its guards, and discharge every field of the invariant -/
 macro "step_tac" s:ident hi:ident hs:ident : tactic => `(tactic| (
-  obtain ⟨d0, d1, e0, e1, r0, r1, wg, sg, x1, xa, ea, rt, lt, cl, cc, cw⟩ := $hi
+  obtain ⟨d0, d1, e0, e1, r0, r1, wg, sg, x1, xa, ea, rt, lt, cl, cc, cw, sb⟩ := $hi
   cases $s:ident
   simp only [syncStep, runMove, cancelStep] at $hs:ident
   repeat' split at $hs:ident
@@ -135,34 +138,28 @@ theorem cancelStep_ok_cases (h : Bool) (s t : SyncState) (hc : cancelStep h s = 
   repeat' split at hc
   all_goals (first | (cases hc; simp) | cases hc)
 
-theorem inv_ctxDone (s : SyncState) (hi : Inv s) : Inv { s with ctxDone := true } := by
-  obtain ⟨d0, d1, e0, e1, r0, r1, wg, sg, x1, xa, ea, rt, lt, cl, cc, cw⟩ := hi
-  constructor <;> simp_all
-
-theorem inv_signal (s : SyncState) (hi : Inv s) :
-    Inv { s with sigOcc := s.sigOcc + 1, cancelSends := s.cancelSends + 1, ctxDone := true } := by
-  obtain ⟨d0, d1, e0, e1, r0, r1, wg, sg, x1, xa, ea, rt, lt, cl, cc, cw⟩ := hi
-  constructor <;> simp_all
-
-theorem inv_cancelStep (h : Bool) (s t : SyncState) (hi : Inv s) (hc : cancelStep h s = .ok t) : Inv t := by
-  rcases cancelStep_ok_cases h s t hc with rfl | rfl
-  · exact inv_ctxDone s hi
-  · exact inv_signal s hi
-
 theorem inv_provideCancelled (h : Bool) (s s' : SyncState) (v : Bool) (hi : Inv s)
     (hs : syncStep h s (.provideCancelled v) = .next s') : Inv s' := by
   simp only [syncStep] at hs
   split at hs
-  · cases hs; exact hi
-  · split at hs
+  · cases hs
+  · rename_i hst
+    split at hs
     · cases hs
-      rename_i heq
-      exact inv_cancelStep h s _ hi heq
-    · cases hs
+      obtain ⟨d0, d1, e0, e1, r0, r1, wg, sg, x1, xa, ea, rt, lt, cl, cc, cw, sb⟩ := hi
+      cases s
+      constructor <;> simp_all <;> (try omega)
+    · split at hs
+      · cases hs
+        rename_i heq
+        obtain ⟨d0, d1, e0, e1, r0, r1, wg, sg, x1, xa, ea, rt, lt, cl, cc, cw, sb⟩ := hi
+        rcases cancelStep_ok_cases h _ _ heq with ht | ht <;> subst ht <;> cases s <;>
+          (constructor <;> simp_all <;> (try omega))
+      · cases hs
 
 theorem inv_closeReturn (h : Bool) (s s' : SyncState) (hi : Inv s)
     (hs : syncStep h s (.closeReturn) = .next s') : Inv s' := by
-  obtain ⟨d0, d1, e0, e1, r0, r1, wg, sg, x1, xa, ea, rt, lt, cl, cc, cw⟩ := hi
+  obtain ⟨d0, d1, e0, e1, r0, r1, wg, sg, x1, xa, ea, rt, lt, cl, cc, cw, sb⟩ := hi
   simp only [syncStep] at hs
   split at hs
   · cases hs
@@ -185,7 +182,7 @@ theorem inv_closeReturn (h : Bool) (s s' : SyncState) (hi : Inv s)
 
 theorem inv_recvResult (h : Bool) (s s' : SyncState) (hi : Inv s)
     (hs : syncStep h s (.recvResult) = .next s') : Inv s' := by
-  obtain ⟨d0, d1, e0, e1, r0, r1, wg, sg, x1, xa, ea, rt, lt, cl, cc, cw⟩ := hi
+  obtain ⟨d0, d1, e0, e1, r0, r1, wg, sg, x1, xa, ea, rt, lt, cl, cc, cw, sb⟩ := hi
   cases s
   simp only [syncStep, runMove] at hs
   split at hs
@@ -205,22 +202,12 @@ theorem inv_ctxAtRun (h : Bool) (s s' : SyncState) (hi : Inv s)
     · split at hs
       · cases hs
         rename_i t heq
-        have hit := inv_cancelStep h s t hi heq
-        have hpc' : t.pc = s.pc ∧ t.closeReturned = s.closeReturned ∧ t.lateNotif = s.lateNotif := by
-          rcases cancelStep_ok_cases h s t heq with rfl | rfl <;> simp
-        have hcd : t.ctxDone = true := by
-          rcases cancelStep_ok_cases h s t heq with rfl | rfl <;> simp
-        obtain ⟨d0, d1, e0, e1, r0, r1, wg, sg, x1, xa, ea, rt, lt, cl, cc, cw⟩ := hit
-        obtain ⟨lt0, rt0⟩ := And.intro hi.late hi.returned
-        cases t
-        simp only at hpc'
-        obtain ⟨q1, q2, q3⟩ := hpc'
-        simp only at hcd
-        subst q1 q2 q3 hcd
-        constructor <;> simp_all [earlyPc] <;> (try omega)
+        obtain ⟨d0, d1, e0, e1, r0, r1, wg, sg, x1, xa, ea, rt, lt, cl, cc, cw, sb⟩ := hi
+        rcases cancelStep_ok_cases h s t heq with ht | ht <;> subst ht <;> cases s <;> simp only at hpc hctx <;>
+          subst hpc <;> (constructor <;> simp_all [earlyPc] <;> (try omega))
       · cases hs
     · cases hs
-      obtain ⟨d0, d1, e0, e1, r0, r1, wg, sg, x1, xa, ea, rt, lt, cl, cc, cw⟩ := hi
+      obtain ⟨d0, d1, e0, e1, r0, r1, wg, sg, x1, xa, ea, rt, lt, cl, cc, cw, sb⟩ := hi
       cases s
       simp only at hpc hctx
       subst hpc
@@ -295,16 +282,28 @@ theorem cancelStep_not_blocked (h : Bool) (s : SyncState) (hb : s.sigOcc < plugi
   repeat' split
   all_goals simp_all
 
-theorem provideCancelled_not_blocked (h : Bool) (s : SyncState) (v : Bool) (hi : Inv s)
-    (hb : s.cancelSends < pluginChan_signalToStep) : syncStep h s (.provideCancelled v) ≠ .wouldBlock := by
-  have hs : s.sigOcc < pluginChan_signalToStep := Nat.lt_of_le_of_lt hi.sig hb
+/-- never more than two cancel signals are sent, and the channel has room for them -/
+theorem sig_room (s : SyncState) (hi : Inv s) : s.sigOcc < pluginChan_signalToStep := by
+  have h1 := hi.sig
+  have h2 := hi.stopBound
+  have h3 : s.cancelSends ≤ 2 := by
+    refine Nat.le_trans h2 ?_
+    split <;> split <;> omega
+  have h4 : 2 < pluginChan_signalToStep := by decide
+  omega
+
+theorem provideCancelled_not_blocked (h : Bool) (s : SyncState) (v : Bool) (hi : Inv s) :
+    syncStep h s (.provideCancelled v) ≠ .wouldBlock := by
+  have hs := sig_room s hi
   simp only [syncStep]
   split
   · simp
   · split
     · simp
-    · rename_i heq
-      exact absurd heq (cancelStep_not_blocked h s hs)
+    · split
+      · simp
+      · rename_i heq
+        exact absurd heq (cancelStep_not_blocked h _ (by simpa using hs))
 
 /-- no action of the skeleton panics (since 691f1ef `cancelStep` does not touch a missing handler) -/
 theorem never_panics (h : Bool) (s : SyncState) (a : Act) (site : String) : syncStep h s a ≠ .panic site := by
@@ -313,28 +312,31 @@ theorem never_panics (h : Bool) (s : SyncState) (a : Act) (site : String) : sync
 /-! ### the once-only flags -/
 
 theorem cancelStep_flags (h : Bool) (s t : SyncState) (hc : cancelStep h s = .ok t) :
-    t.deployAvail = s.deployAvail ∧ t.enabledAvail = s.enabledAvail ∧ t.runAvail = s.runAvail ∧ t.closed = s.closed := by
+    t.deployAvail = s.deployAvail ∧ t.enabledAvail = s.enabledAvail ∧ t.runAvail = s.runAvail ∧ t.closed = s.closed ∧
+    t.stopAvail = s.stopAvail := by
   rcases cancelStep_ok_cases h s t hc with rfl | rfl <;> simp
 
 /-- no step ever resets an "input available" flag or the closed flag -/
 theorem flags_mono (h : Bool) (s s' : SyncState) (a : Act) (hs : syncStep h s a = .next s') :
     (s.deployAvail = true → s'.deployAvail = true) ∧ (s.enabledAvail = true → s'.enabledAvail = true) ∧
-    (s.runAvail = true → s'.runAvail = true) ∧ (s.closed = true → s'.closed = true) := by
+    (s.runAvail = true → s'.runAvail = true) ∧ (s.closed = true → s'.closed = true) ∧
+    (s.stopAvail = true → s'.stopAvail = true) := by
   cases a <;> simp only [syncStep, runMove] at hs <;> (repeat' split at hs) <;>
     first
     | (cases hs; simp_all; done)
-    | (cases hs; rename_i heq; have := cancelStep_flags h s _ heq; simp_all; done)
+    | (cases hs; rename_i heq; have := cancelStep_flags h _ _ heq; simp_all; done)
     | (cases hs; done)
 
 theorem flags_mono_star (h : Bool) (s t : SyncState) (hr : ReachableFrom h s t) :
     (s.deployAvail = true → t.deployAvail = true) ∧ (s.enabledAvail = true → t.enabledAvail = true) ∧
-    (s.runAvail = true → t.runAvail = true) ∧ (s.closed = true → t.closed = true) := by
+    (s.runAvail = true → t.runAvail = true) ∧ (s.closed = true → t.closed = true) ∧
+    (s.stopAvail = true → t.stopAvail = true) := by
   induction hr with
   | refl => simp
   | step a _ hs ih =>
     have := flags_mono h _ _ a hs
     refine ⟨fun x => this.1 (ih.1 x), fun x => this.2.1 (ih.2.1 x), fun x => this.2.2.1 (ih.2.2.1 x),
-      fun x => this.2.2.2 (ih.2.2.2 x)⟩
+      fun x => this.2.2.2.1 (ih.2.2.2.1 x), fun x => this.2.2.2.2 (ih.2.2.2.2 x)⟩
 
 theorem provideDeploy_sets (h : Bool) (s s' : SyncState) (hs : syncStep h s .provideDeploy = .next s') :
     s'.deployAvail = true := by
@@ -353,6 +355,17 @@ theorem provideStarting_sets (h : Bool) (s s' : SyncState) (v : Bool)
   simp only [syncStep] at hs
   repeat' split at hs
   all_goals (cases hs; try rfl)
+
+theorem provideCancelled_sets (h : Bool) (s s' : SyncState) (v : Bool)
+    (hs : syncStep h s (.provideCancelled v) = .next s') : s'.stopAvail = true := by
+  simp only [syncStep] at hs
+  repeat' split at hs
+  all_goals (first | (cases hs; done) | (cases hs; rfl) |
+    (cases hs; rename_i heq; have := (cancelStep_flags h _ _ heq).2.2.2.2; simpa using this))
+
+theorem provideCancelled_refused (h : Bool) (s : SyncState) (v : Bool) (hf : s.stopAvail = true) :
+    syncStep h s (.provideCancelled v) = .refused s := by
+  simp [syncStep, hf]
 
 theorem provideDeploy_refused (h : Bool) (s : SyncState) (hf : s.deployAvail = true) :
     syncStep h s .provideDeploy = .refused s := by
